@@ -84,6 +84,22 @@ def str_tests(P, body, O=None):
             else:
                 break
         if found is None:
+            # the result was stored in a flag and is tested later (`let is_x = word == "x"; .. if is_x`): the one switch whose
+            # condition is this very call
+            cands = []
+            for sbb, st_ in body.switches():
+                e = O.switch_cond(sbb)
+                neg = False
+                while e[0] == "un" and e[1] == "Not":
+                    neg = not neg
+                    e = e[2]
+                while e[0] == "cast":
+                    e = e[2]
+                if e[0] == "call" and e[4] == span_loc(cs.sp) and X.last_seg(e[1]) == cs.name and body.dominates(cs.bb, sbb):
+                    cands.append((sbb, st_, neg))
+            if len(cands) == 1:
+                found = cands[0]
+        if found is None:
             continue
         tb, t, neg = found
         if len(t["vals"]) != 1:
